@@ -212,6 +212,18 @@ def handle (j : Json) : Except String Json := do
     -- every scalar value the model treats as whitespace (the table behind `pyStrip`)
     let cps := (List.range 0x110000).filter (fun n => (n < 0xD800 || n > 0xDFFF) && pyIsSpace (Char.ofNat n))
     pure (Json.mkObj [("spaces", toJson cps)])
+  | "numbers" =>
+    -- the model's reading of number literals: does float() accept, the value models of float() and int()
+    let ssJ ← (j.getObjVal? "strings").bind (·.getArr?)
+    let ss ← ssJ.toList.mapM (·.getStr?)
+    let one (s : String) : Json := Json.mkObj [("accepts", .bool (pyFloatAccepts s)),
+      ("float", match pyFloat s with | .ok n => toJson n | .error _ => .null),
+      ("int", match pyInt s with | some n => toJson n | none => .null)]
+    pure (Json.mkObj [("numbers", .arr (ss.map one).toArray)])
+  | "numspaces" =>
+    -- every scalar value the model lets int()/float() strip
+    let cps := (List.range 0x110000).filter (fun n => (n < 0xD800 || n > 0xDFFF) && pyIsNumSpace (Char.ofNat n))
+    pure (Json.mkObj [("spaces", toJson cps)])
   | "collection" =>
     let docsJ ← (j.getObjVal? "docs").bind (·.getArr?)
     let docs ← docsJ.toList.mapM xmlOfJson
